@@ -195,7 +195,7 @@ func checkRecoveryProcedure(c *Ctx, p *Prog, rule, dir string) {
 				cr   bool
 			}{{"above the bottom, not a recovery state", 3, false}, {"index 2, not a recovery state", 2, false}, {"index 1, not a recovery state", 1, false}, {"recovery state found", 3, true}, {"recovery state found at index 1", 1, true}, {"bottom reached", 0, false}, {"bottom is a recovery state", 0, true}} {
 				ps := &parserSumm{}
-				reg := &Region{Fn: frs, Start: hs[0], Cuts: cutSet(hs[0]), Summaries: ps.summaries(nil),
+				reg := &Region{Fn: frs, Start: hs[0], Cuts: cutSet(hs[0]), StalePrologue: true, Summaries: ps.summaries(nil),
 					PhiInputs: map[string]Val{"recoveryState": VSym{Name: "RS"}, "canRecover": VAtom{Key: "CR"}}}
 				out := InterpretSafe(reg, &MapWorld{Ints: map[string]int64{"RS": wd.rs}, Atoms: map[string]bool{"CR": wd.cr}})
 				var ok bool
@@ -290,7 +290,7 @@ func checkRecoveryProcedure(c *Ctx, p *Prog, rule, dir string) {
 		ps := &parserSumm{}
 		sm := ps.summaries(nil)
 		sm["*.popNonRecoveryStates"] = func(r *Run, cc *ssa.CallCommon, args []Val) (Val, error) { return VOpq{"discarded"}, nil }
-		reg := &Region{Fn: errFn, Start: hs[0], Cuts: cutSet(hs...), Summaries: sm, Lazy: mkLazy(&ea, &ta, &cnt),
+		reg := &Region{Fn: errFn, Start: hs[0], Cuts: cutSet(hs...), StalePrologue: true, Summaries: sm, Lazy: mkLazy(&ea, &ta, &cnt),
 			PhiInputs: map[string]Val{"rangeindex": VSym{Name: "i"}},
 			AtStart:   func(r *Run, fr *frame) { ps.tops = 0 }}
 		out := InterpretSafe(reg, &MapWorld{Ints: map[string]int64{"i": 100}})
@@ -328,7 +328,7 @@ func checkRecoveryProcedure(c *Ctx, p *Prog, rule, dir string) {
 		ps := &parserSumm{}
 		sm := ps.summaries(nil)
 		sm["*.popNonRecoveryStates"] = func(r *Run, cc *ssa.CallCommon, args []Val) (Val, error) { return VOpq{"discarded"}, nil }
-		reg := &Region{Fn: errFn, Start: hs[1], Cuts: cutSet(hs...), Summaries: sm, Lazy: mkLazy(&ea, &ta, &cnt),
+		reg := &Region{Fn: errFn, Start: hs[1], Cuts: cutSet(hs...), StalePrologue: true, Summaries: sm, Lazy: mkLazy(&ea, &ta, &cnt),
 			PhiInputs: map[string]Val{"recovered": boolConst(wd.recovered)},
 			PreWorld: &MapWorld{AtomFn: func(key string) (bool, bool) {
 				return true, strings.HasSuffix(key, "== nil") // prologue: the expected-token loop finds no entries
